@@ -4,7 +4,7 @@ import ast
 from .core import AnalysisError, Finding
 from .astutil import unparse, dotted, walk_no_nested, fold, NotConstant
 from . import oracle, docs
-from .encsum import (all_summaries, oracle_spec, compare_with_oracle, injectivity, mask_after_guard, derived_operand,
+from .encsum import (all_summaries, summary_of, oracle_spec, compare_with_oracle, injectivity, mask_after_guard, derived_operand,
                      canon, show_cells)
 from .wiring import parse_item_outcomes, admits
 
@@ -20,6 +20,16 @@ def binding_line(facts, mnemonic):
     try:
         return facts.binding(mnemonic).node.lineno
     except AnalysisError:
+        return None
+
+
+def attempt(report, rule_fn, *args, **kwargs):
+    """Run one rule group; an AnalysisError inside it is a deferred no-verdict (Report.undecided), so that it cannot mask a violation
+    another rule group of the same run establishes."""
+    try:
+        return rule_fn(*args, **kwargs)
+    except AnalysisError as e:
+        report.undecided(str(e))
         return None
 
 
@@ -42,7 +52,9 @@ def check_layout(report, facts, mnemonics, rule):
     """(a)+(b): constant bits and operand bit positions equal the oracle; no overlapping fields."""
     sums = all_summaries(facts)
     for m in mnemonics:
-        s = sums[m]
+        s = summary_of(report, sums, m)
+        if s is None:
+            continue
         spec = oracle_spec(m)
         report.count('encoder summaries')
         if s.always_refused:
@@ -63,8 +75,8 @@ def check_layout(report, facts, mnemonics, rule):
 def check_injective(report, facts, mnemonics, rule):
     sums = all_summaries(facts)
     for m in mnemonics:
-        s = sums[m]
-        if s.always_refused:
+        s = summary_of(report, sums, m)
+        if s is None or s.always_refused:
             continue
         probs = injectivity(s)
         if not probs:
@@ -80,8 +92,8 @@ def check_disjoint(report, facts, mnemonics, rule, width):
     sums = all_summaries(facts)
     pats = []
     for m in mnemonics:
-        s = sums[m]
-        if s.always_refused or s.bits is None:
+        s = summary_of(report, sums, m)
+        if s is None or s.always_refused or s.bits is None:
             continue
         pats.append((m,) + s.const_mask_match(width))
     n = 0
@@ -104,7 +116,9 @@ def check_acceptance(report, facts, mnemonics, rule):
     """(c): accepted set == legal set, both inclusions, per operand."""
     sums = all_summaries(facts)
     for m in mnemonics:
-        s = sums[m]
+        s = summary_of(report, sums, m)
+        if s is None:
+            continue
         spec = oracle_spec(m)
         if s.always_refused:
             report.fail(Finding(rule, '{}:{}'.format(s.encoder, m), 'always refused',
@@ -113,8 +127,9 @@ def check_acceptance(report, facts, mnemonics, rule):
         mism = [x for x in compare_with_oracle(s, spec) if x[0].startswith('accepted') or x[0] in ('arity', 'operand')]
         n_ops = len(spec['operands'])
         if not mism and s.imprecise:
-            raise AnalysisError('{}: accepted set could only be over-approximated (a test on already extracted bits); '
-                                'no verdict on its equality with the legal set'.format(m))
+            report.undecided('{}: accepted set could only be over-approximated (a test on already extracted bits); '
+                             'no verdict on its equality with the legal set'.format(m))
+            continue
         if not mism:
             report.ok(rule, '{}: accepted set == legal set for {} operand(s)'.format(m, n_ops), nontrivial=n_ops > 0)
         for aspect, msg in mism:
@@ -126,7 +141,9 @@ def check_mask_guard(report, facts, mnemonics, rule):
     sums = all_summaries(facts)
     seen = set()
     for m in mnemonics:
-        s = sums[m]
+        s = summary_of(report, sums, m)
+        if s is None:
+            continue
         bad = mask_after_guard(s)
         report.count('mask sites examined', len(s.masks))
         for ev, msg in bad:
@@ -197,6 +214,10 @@ def operand_index(prov):
             consts = [x[1] for x in inner[1] if x[0] == 'const']
             if len(toks) == 1:
                 return toks[0][1], 'imm-offset' if '%offset' in consts else 'imm-token'
+    if prov[0] == 'call' and prov[1] in ('Offset', 'Arithmetic') and len(prov[2]) == 1 and not prov[3] and prov[2][0][0] == 'tok':
+        # the expression node built directly: Offset(tok) is what parse_immediate(['%offset', tok]) returns, Arithmetic(tok) what
+        # parse_immediate([tok]) returns for a token that is not a modifier
+        return prov[2][0][1], 'imm-offset' if prov[1] == 'Offset' else 'imm-token'
     if prov[0] == 'const':
         return None, 'const'
     return None, 'other'
@@ -212,6 +233,14 @@ def check_wiring(report, facts, rule, compressed, doc_text):
     all_arms, else_outs = parse_item_outcomes(facts)
     opaque_returns = [o for _, _, outs_ in list(all_arms) + [(None, None, else_outs)] for o in outs_
                       if o.kind == 'return' and (o.cls is None or o.cls not in facts.classes)]
+    unknown_head = [c for _, _, outs_ in list(all_arms) + [(None, None, else_outs)] for o in outs_ for c in getattr(o.path, 'unknown_head', ())]
+
+    def not_consulted(what):
+        """a mnemonic (table) for which no path was found is a finding only if every mnemonic test of parse_item was read"""
+        if unknown_head:
+            raise AnalysisError('parse_item: {}, but a test on the first token is not understood ({}): which lines reach which arm '
+                                'is not decided'.format(what, unknown_head[0][:60]))
+
     for tname, table in tables.items():
         mns = [m for m in table if m.startswith('c.') == compressed]
         if not mns:
@@ -222,12 +251,14 @@ def check_wiring(report, facts, rule, compressed, doc_text):
             raise AnalysisError('parse_item returns a value the token flow cannot follow ({}): which item is built for a line is '
                                 'not understood'.format(unparse(o.node).split('\n')[0]))
         if outs is None:
+            not_consulted('no path consults the mnemonic table {}'.format(tname))
             report.fail(Finding(rule, 'parse_item', 'no arm for ' + tname,
                                 'mnemonic table {} is never consulted by parse_item: {} cannot be written'.format(tname, mns),
                                 line=fn_line(facts, 'parse_item')))
             continue
         rets = [o for o in outs if o.kind == 'return' and o.cls != 'PseudoInstruction']
         if not rets:
+            not_consulted('the arm for {} builds no instruction item'.format(tname))
             report.fail(Finding(rule, 'parse_item', 'no constructor for ' + tname,
                                 'the arm for {} builds no instruction item'.format(tname), line=fn_line(facts, 'parse_item')))
             continue
@@ -264,8 +295,12 @@ def check_wiring(report, facts, rule, compressed, doc_text):
                                                         ' (no value for {})'.format(missing) if missing else ''), line=o.node.lineno),
                                 instance='{} arity {}'.format(cls, unparse(o.node)[:60]))
                     continue
-            # name parameter
-            nm = bound.get('name')
+            # name parameter: the constructor parameter stored into the attribute `name` (the key resolve_instructions looks the
+            # encoder up with), whatever the parameter is called
+            name_params = [src for attr, src, how in facts.attr_order_detailed(cls) if attr == 'name' and src and how in ('identity', 'idempotent')]
+            if len(name_params) != 1:
+                raise AnalysisError('{}: which constructor parameter fills the `name` attribute is not understood'.format(cls))
+            nm = bound.get(name_params[0])
             if nm is not None and nm[0] not in ('tok', 'tokend', 'lower', 'const', 'imm', 'int', 'rest', 'list', 'line'):
                 raise AnalysisError('parse_item: how the name field of {} is filled is not understood: {}'.format(cls, nm))
             if nm != ('lower', ('tok', 0)) and nm != ('tok', 0):
@@ -275,10 +310,18 @@ def check_wiring(report, facts, rule, compressed, doc_text):
             # route: encoder positional index -> token index
             route = []
             ok_route = True
+            detailed = {a_: (src_, how_) for a_, src_, how_ in facts.attr_order_detailed(cls)}
             for idx, attr in enumerate(args_attrs):
                 param = next((p for p, a in attr_of_param.items() if a == attr), None)
+                if param is None and detailed.get(attr, (None, None))[1] == 'idempotent':
+                    param = detailed[attr][0]
+                if param is None and detailed.get(attr, (None, 'other'))[1] != 'const':
+                    # args() hands the encoder something that is not a constructor parameter stored as it came (a property, a
+                    # computed attribute): where the operand comes from is not followed
+                    raise AnalysisError('{}.args() returns {}, which the constructor does not store from one of its parameters: the '
+                                        'route of that operand is not understood'.format(cls, attr))
                 if param is None or param not in bound:
-                    # default value (aq / rl / is_auipc_jump)
+                    # default value (aq / rl / is_auipc_jump) / constant attribute
                     route.append((idx, attr, None, 'default'))
                     continue
                 tok, shape = operand_index(bound[param])
@@ -290,9 +333,9 @@ def check_wiring(report, facts, rule, compressed, doc_text):
                 if not admits(facts, o.path, m):
                     continue            # a line starting with m never takes this path
                 built.add(m)
-                s = sums[m]
+                s = summary_of(report, sums, m)
                 spec = oracle_spec(m)
-                if spec is None:
+                if spec is None or s is None:
                     continue
                 enc_params = s.params
                 n_open = len(enc_params)
@@ -344,6 +387,10 @@ def check_wiring(report, facts, rule, compressed, doc_text):
                         problems.append('a non-integer {} operand is wrapped in %offset (value - address of the instruction), but {} is not a '
                                         'branch / jump: its operand is a plain value, so the same line would encode differently depending on '
                                         'where it stands'.format(role, m))
+                if problems and o.path.unknown_conds and not paren:
+                    raise AnalysisError('parse_item: the path building {} for {} rests on a condition about the operand tokens that is not '
+                                        'modelled ({}): whether it is the plain or the imm(reg) form is not decided'.format(
+                                            cls, m, o.path.unknown_conds[0][:60]))
                 if problems:
                     for pr in problems:
                         report.fail(Finding(rule, 'parse_item', o.node, '{}: {}'.format(label, pr), line=o.node.lineno), instance=label)
@@ -351,6 +398,7 @@ def check_wiring(report, facts, rule, compressed, doc_text):
                     report.ok(rule, label + ': operand k -> encoder parameter k')
         for m in mns:
             if m not in built and oracle_spec(m) is not None:
+                not_consulted('no path builds an item for {}'.format(m))
                 report.fail(Finding(rule, 'parse_item', 'no constructor for ' + m,
                                     'no path of parse_item builds an instruction item for {} ({}): it cannot be written'.format(m, tname),
                                     line=fn_line(facts, 'parse_item')), instance=m)
@@ -402,6 +450,125 @@ def rebuild_sites(facts):
     return out
 
 
+def tokens_reaching(prov, n_tokens):
+    """(set of token indices the provenance carries, lowest index from which *all* later tokens are carried or None,
+    opaque?)  opaque = the value contains an expression the token flow did not follow."""
+    idx, tail, opaque = set(), None, False
+    todo = [prov]
+    while todo:
+        v = todo.pop()
+        if isinstance(v, dict):
+            todo.extend(v.values())
+            continue
+        if isinstance(v, (list, tuple)) and (not v or not isinstance(v[0], str)):
+            todo.extend(v)
+            continue
+        if not isinstance(v, tuple) or not v:
+            continue
+        k = v[0]
+        if k == 'tok':
+            idx.add(v[1])
+        elif k == 'tokend':
+            if n_tokens is not None:
+                idx.add(n_tokens - v[1])
+            else:
+                opaque = True
+        elif k == 'rest':
+            if n_tokens is not None:
+                idx.update(range(v[1], n_tokens - v[2]))
+            else:
+                tail = v[1] if tail is None else min(tail, v[1])
+        elif k == 'expr':
+            opaque = True
+        elif k in ('const', 'line', 'ref', 'func', 'classref'):
+            pass
+        elif k in ('closure', 'obj'):
+            opaque = True
+        else:
+            todo.extend(x for x in v[1:] if isinstance(x, (tuple, list, dict)))
+    return idx, tail, opaque
+
+
+def check_ignored_tokens(report, facts, rule):
+    """Every token of an accepted instruction line must matter: on every parse_item path that builds an instruction item, each
+    token of the line shape (all of them when the path fixes the number of tokens, else the mandatory ones) must
+
+      * reach a constructor argument, or
+      * be compared equal to a constant (punctuation: `(`), or
+      * be validated against the one operand the form implies: `lookup_register(tok) == 2`, `tok in ('sp', 'x2')` (a literal
+        collection whose members all denote one register / one spelling).
+
+    A token that is bound and never looked at again, or only tested for membership in a table that admits different operands
+    (`tok in REGISTERS`), is silently ignored: `c.lwsp x1, 8(x9)` would be accepted and encode the sp-relative form -> finding.
+    A token examined by a test this rule does not understand -> no verdict (raised at the end, unless a finding was established).
+    Known leniency, noted and not judged: the token after the base register of `imm(reg)` is never compared with `)`."""
+    cls_tables, table_outcomes = class_tables(facts)
+    arms, else_outs = parse_item_outcomes(facts)
+    regs = facts.tables.get('REGISTERS') or {}
+    undecided = []
+    seen = set()
+    n = 0
+    for tname, table in facts.instruction_tables().items():
+        for o in table_outcomes.get(tname, []):
+            if o.kind != 'return' or not o.cls or o.cls not in facts.classes or id(o) in seen:
+                continue
+            if not facts.is_subclass(o.cls, 'Instruction') or o.cls == 'PseudoInstruction':
+                continue
+            seen.add(id(o))
+            n += 1
+            path = o.path
+            total = path.exact_tokens
+            idx, tail, opaque = tokens_reaching([o.args, o.kwargs], total)
+            upto = total if total is not None else path.min_tokens
+            if tail is not None:
+                upto = min(upto, tail)
+            who = sorted(m for m in table if admits(facts, path, m))
+            label = '{} [{}]'.format(o.cls, ', '.join(who)[:40])
+            paren_at = [f[1][1] for f in path.tok_facts if f[0] == 'tok_eq' and f[2] == '(' and f[3] and f[1][0] == 'tok']
+            bad = False
+            for k in range(upto):
+                if k in idx:
+                    continue
+                tests = [t for t in path.tok_tests if t[0] == ('tok', k) or (total is not None and t[0] == ('tokend', total - k))]
+                if total is not None and k == total - 1 and paren_at and min(paren_at) < k - 1:
+                    report.note('the closing token of the `imm(reg)` form is never compared with `)` ({}): `lw x1, 8(x2 x3` is accepted; '
+                                'noted, not judged'.format(tname))
+                    continue
+
+                def validates(t):
+                    prov, kind, detail, pol, via = t
+                    if not pol:
+                        return False
+                    if kind == 'eq':
+                        return True
+                    if kind == 'in':
+                        vals = list(detail)
+                        if len(vals) == 1:
+                            return True
+                        return bool(vals) and all(v in regs for v in vals) and len({regs[v] for v in vals}) == 1
+                    return False
+                if any(validates(t) for t in tests):
+                    continue
+                if opaque or any(t[1] == 'other' for t in tests) or any(t[1] == 'in-table' and t[2] != 'REGISTERS' and t[3] for t in tests):
+                    undecided.append('{}: token {} does not reach the item and is examined by a test that is not understood as a validation ({})'.format(
+                        label, k, '; '.join(str(t[2])[:50] for t in tests) or 'an argument the token flow did not follow'))
+                    continue
+                how = 'is only tested for membership in REGISTERS (any register is accepted) and then dropped' \
+                    if any(t[1] == 'in-table' and t[3] for t in tests) else 'is bound and never looked at'
+                bad = True
+                report.fail(Finding(rule, 'parse_item', o.node,
+                                    '{}: token {} of the accepted line shape ({} tokens) {}: it neither reaches a field of the item nor is it '
+                                    'compared with the operand the form implies, so e.g. `{} ...` with any text in that position assembles as if it '
+                                    'were not there: an operand the instruction cannot encode is not refused'.format(
+                                        label, k, total if total is not None else 'at least {}'.format(upto), how, who[0] if who else tname),
+                                    line=o.node.lineno), instance='{} token {}'.format(label, k))
+            if not bad:
+                report.ok(rule, '{} ({} tokens): every token reaches the item or is validated'.format(label, total if total is not None else '>= {}'.format(upto)))
+    report.count('instruction parse paths checked for ignored tokens', n)
+    if undecided and not report.findings:
+        raise AnalysisError('parse_item: ' + undecided[0] + (' (+{} more)'.format(len(undecided) - 1) if len(undecided) > 1 else ''))
+
+
 def check_rebuild_invariant(report, facts, rule):
     """Items are rebuilt from their attribute dict (`item.__class__(*vars(item).values())`): for a positional rebuild the attribute
     assignment order of __init__ must equal the constructor parameter order, each `self.x = x`; for a keyword rebuild
@@ -424,37 +591,71 @@ def check_rebuild_invariant(report, facts, rule):
         if owner is None:
             continue
         params = [p for p, _ in facts.init_params(cname)]
-        order = facts.full_attr_order(cname)
+        order = facts.attr_order_detailed(cname)
         n += 1
         if owner.init_vararg:
             # PseudoInstruction(line, name, *args): never rebuilt positionally (no register/imm attributes)
-            attrs = [a for a, _ in order]
+            attrs = [a for a, _, _ in order]
             if {'rd', 'rs1', 'rs2', 'rd_rs1', 'imm'} & set(attrs):
                 report.fail(Finding(rule, cname + '.__init__', 'vararg', 'class with *args constructor carries rebuildable fields',
                                     line=ci.node.lineno))
             else:
                 report.ok(rule, cname + ': varargs class has no rebuildable fields')
             continue
-        got = [(a, s) for a, s in order]
-        want = [(p, p) for p in params]
         if not sites:
             report.ok(rule, '{}: never rebuilt from its attribute dict'.format(cname), nontrivial=False)
-        elif not positional and sorted(got) == sorted(want):
-            report.ok(rule, '{}: attributes {} stored under their parameter names (keyword rebuild)'.format(cname, sorted(a for a, _ in got)))
-        elif got == want:
-            report.ok(rule, '{}: attribute order {} == parameter order'.format(cname, [a for a, _ in got]))
+            continue
+        if not facts.init_understood(cname):
+            raise AnalysisError('{}.__init__ stores attributes in a way the class model does not follow (only `self.x = <parameter>` '
+                                'statements and base-class calls are): whether a rebuild from vars(item) restores the item is not '
+                                'decided'.format(cname))
+        got = [(a, s_) for a, s_, _ in order]
+        unknown = [a for a, s_, how in order if how == 'other' or (s_ is None and how != 'const')]
+        if unknown:
+            raise AnalysisError('{}.__init__: how the attribute(s) {} derive from the constructor parameters is not understood'.format(
+                cname, unknown))
+        # the i-th value of vars(item) is handed back as the i-th constructor argument (positional rebuild) / under its attribute
+        # name (keyword rebuild): the item is restored iff that argument is the parameter the attribute was stored from, and storing
+        # it again gives the same value (the parameter itself, or an idempotent conversion of it such as name.lower())
+        if not positional:
+            bad = [(a, s_) for a, s_ in got if a != s_]
+            extra = [p_ for p_, d in facts.init_params(cname) if d is None and p_ not in [a for a, _ in got]]
+            if not bad and not extra:
+                report.ok(rule, '{}: attributes {} stored under their parameter names (keyword rebuild)'.format(cname, sorted(a for a, _ in got)))
+                continue
         else:
-            report.fail(Finding(rule, cname + '.__init__', 'attribute order',
-                                '{}: __init__ stores {} but its parameters are {}: positional rebuild would permute fields'.format(
-                                    cname, got, params), line=ci.node.lineno))
+            srcs = [s_ for _, s_ in got]
+            tail_ok = all(d is not None for _, d in facts.init_params(cname)[len(srcs):])
+            if srcs == params[:len(srcs)] and tail_ok:
+                report.ok(rule, '{}: attribute order {} == parameter order'.format(cname, [a for a, _ in got]))
+                continue
+        report.fail(Finding(rule, cname + '.__init__', 'attribute order',
+                            '{}: __init__ stores {} but its parameters are {}: {} rebuild would permute fields'.format(
+                                cname, got, params, 'positional' if positional else 'keyword'), line=ci.node.lineno))
     report.count('item classes checked for the rebuild invariant', n)
 
 
 def check_registers(report, facts, rule):
     """REGISTERS maps n, 'n', 'xn' and the ABI name of register n to n for n = 0..31 and nothing else."""
-    table = facts.tables.get('REGISTERS')
+    # the table is the one the register operands are actually looked up in (read off the encoder summaries), whatever it is called
+    used = set()
+    sums = all_summaries(facts)
+    for m in facts.instructions():
+        if oracle_spec(m) is None:
+            continue
+        s_ = summary_of(report, sums, m)
+        if s_ is not None:
+            used |= set(getattr(s_, 'reg_tables', ()))
+    if len(used) > 1:
+        raise AnalysisError('register operands are looked up in several tables ({}): which spellings are accepted is not decided'.format(sorted(used)))
+    tname = next(iter(used)) if used else 'REGISTERS'
+    table = facts.tables.get(tname)
     if table is None:
-        raise AnalysisError('anchor vanished: REGISTERS')
+        raise AnalysisError('anchor vanished: ' + tname)
+    # entries added after the literal (REGISTERS['fp'] = 8, .update({...}), a setdefault loop) are folded by the program model; a write
+    # it does not fold, or a function that fills the table at import time, is no verdict
+    from . import tablefold
+    tablefold.settle(facts, tname)
     want = {}
     for n in range(32):
         want[n] = n
@@ -462,21 +663,21 @@ def check_registers(report, facts, rule):
         want['x{}'.format(n)] = n
         want[oracle.ABI_NAMES[n]] = n
     want.update(oracle.ABI_EXTRA)
-    line = facts.assign_nodes['REGISTERS'].lineno
+    line = getattr(facts.assign_nodes.get(tname), 'lineno', None)
     bad = 0
     for k in sorted(set(want) | set(table), key=str):
         if k not in table:
-            report.fail(Finding(rule, 'REGISTERS', 'missing {!r}'.format(k), 'register spelling {!r} (x{}) is not accepted'.format(k, want[k]), line=line))
+            report.fail(Finding(rule, tname, 'missing {!r}'.format(k), 'register spelling {!r} (x{}) is not accepted'.format(k, want[k]), line=line))
             bad += 1
         elif k not in want:
-            report.fail(Finding(rule, 'REGISTERS', 'extra {!r}'.format(k), 'REGISTERS accepts the non-standard spelling {!r}'.format(k), line=line))
+            report.fail(Finding(rule, tname, 'extra {!r}'.format(k), '{} accepts the non-standard spelling {!r}'.format(tname, k), line=line))
             bad += 1
         elif table[k] != want[k]:
-            report.fail(Finding(rule, 'REGISTERS', 'entry {!r}'.format(k), 'register spelling {!r} maps to x{} instead of x{}'.format(k, table[k], want[k]), line=line))
+            report.fail(Finding(rule, tname, 'entry {!r}'.format(k), 'register spelling {!r} maps to x{} instead of x{}'.format(k, table[k], want[k]), line=line))
             bad += 1
     report.count('register spellings checked', len(want))
     if not bad:
-        report.ok(rule, 'REGISTERS: {} spellings map to their architectural number'.format(len(want)))
+        report.ok(rule, '{}: {} spellings map to their architectural number'.format(tname, len(want)))
 
 
 def check_resolve_instructions(report, facts, rule):
